@@ -131,7 +131,8 @@ def run_damv(ctx: Ctx) -> None:
              "defined (sets S1..S4, S23, S3-^S3, L(q), range of q, "
              "orientation, CUTSQ)")
     repo = ctx.repo
-    fi = repo.func(INST, "__lb_q")
+    from sa.srcmodel import normalised
+    fi = normalised(repo, repo.func(INST, "__lb_q"))
     ctx.need(len(fi.params) == 4, "__lb_q(bin_width, bin_height, q, j_js)")
     wn, hn, qn, ln = fi.params
     W, H, Q, L = (Poly.var(x) for x in ("W", "H", "q", "l"))
@@ -305,7 +306,8 @@ def run_damv(ctx: Ctx) -> None:
                     "(W/2 >= l > H/2), S4 (H/2 >= l >= q)")
         missing = sorted(set(refs) - set(roles.values()))
         if missing and not problems:
-            problems.append(f"no list receives the squares of {missing}")
+            problems.append(f"no list is recognised as receiving the "
+                            f"squares of {missing} (not recognised)")
         if rest_cond is not None and not problems:
             w = equivalent(rest_cond, ("lt", L, Q))
             ok_rest = w is None and all(isinstance(
